@@ -10,3 +10,4 @@ import Abmarl.Props.C01
 #print axioms Abmarl.c01_allDone_iff
 #print axioms Abmarl.c01_ledger
 #print axioms Abmarl.shuffle_perm
+#print axioms Abmarl.c01_final_report
